@@ -466,15 +466,47 @@ def check_attach_and_bring_in(idx, run):
     cls = idx.get_class(FW)
     func = cls.methods["routine_node"]
     mod = cls.module
-    loops = [f for f in ast.walk(func) if isinstance(f, ast.For) and
-             ast.unparse(f.iter) == "node.walk(Schedule)"]
+    routine = func.args.args[1].arg
     ok = False
-    for loop in loops:
+    nloops = 0
+    for loop in ast.walk(func):
+        if not isinstance(loop, ast.For) or \
+                not isinstance(loop.target, ast.Name):
+            continue
+        merged = [c.func.value for c in ast.walk(loop)
+                  if isinstance(c, ast.Call) and
+                  isinstance(c.func, ast.Attribute) and
+                  c.func.attr == "merge"]
+        if not merged:
+            continue
+        nloops += 1
+        tables = {ast.unparse(m) for m in merged}
         for st in ast.walk(loop):
-            if isinstance(st, ast.If) and "schedule is node" in \
-                    ast.unparse(st.test) and \
-                    "whole_routine_scope.attach(node)" in ast.unparse(st):
-                ok = True
+            if not (isinstance(st, ast.If) and
+                    isinstance(st.test, ast.Compare) and
+                    len(st.test.ops) == 1 and
+                    isinstance(st.test.ops[0], (ast.Is, ast.Eq))):
+                continue
+            sides = {ast.unparse(st.test.left),
+                     ast.unparse(st.test.comparators[0])}
+            aliases = {loop.target.id} | {
+                a.targets[0].id for a in ast.walk(loop)
+                if isinstance(a, ast.Assign) and len(a.targets) == 1 and
+                isinstance(a.targets[0], ast.Name) and
+                ast.unparse(a.value) == loop.target.id}
+            if routine not in sides or not (sides - {routine}) <= aliases \
+                    or len(sides) != 2:
+                continue
+            for c in ast.walk(st):
+                if isinstance(c, ast.Call) and \
+                        isinstance(c.func, ast.Attribute) and \
+                        c.func.attr == "attach" and \
+                        ast.unparse(c.func.value) in tables and \
+                        [ast.unparse(a) for a in c.args] == [routine]:
+                    ok = True
+    if not nloops:
+        raise AnalysisError("FortranWriter.routine_node: the loop that "
+                            "merges the inner symbol tables was not found")
     run.check("C04.R3", ok, "FortranWriter.routine_node",
               "the merged table is attached before inner scopes are merged",
               "whole_routine_scope is not attached to the routine right "
@@ -492,23 +524,77 @@ def check_attach_and_bring_in(idx, run):
     if kfunc is None:
         raise AnalysisError("KernelModuleInlineTrans: the code that brings "
                             "in precision symbols was not found")
-    for st in ast.walk(kfunc):
-        if isinstance(st, ast.If) and any(
-                "symbols_to_bring_in.add(symbol.datatype.precision)" in
-                " ".join(ast.unparse(b).split()) for b in st.body):
-            ttxt = " ".join(ast.unparse(st.test).split())
-            if "isinstance(symbol.datatype.precision" in ttxt or \
-                    "symbol.datatype" not in ttxt:
-                continue     # the inner test / enclosing symbol-kind test
+    # every If enclosing the add() whose test looks at symbol.datatype is
+    # evaluated for a scalar and for an array type (three-valued: a test that
+    # is not understood is taken to admit the type)
+    def admits(test, tname):
+        tcls = idx.get_class(tname)
+        if isinstance(test, ast.BoolOp):
+            vals = [admits(v, tname) for v in test.values]
+            if isinstance(test.op, ast.And):
+                return False if False in vals else (
+                    None if None in vals else True)
+            return True if True in vals else (
+                None if None in vals else False)
+        if isinstance(test, ast.UnaryOp) and isinstance(test.op, ast.Not):
+            val = admits(test.operand, tname)
+            return None if val is None else not val
+        if isinstance(test, ast.Call) and isinstance(test.func, ast.Name) \
+                and len(test.args) == 2 and \
+                ast.unparse(test.args[0]) == "symbol.datatype":
+            if test.func.id == "hasattr" and \
+                    isinstance(test.args[1], ast.Constant):
+                attr = test.args[1].value
+                return any(attr in c.methods or attr in c.attrs
+                           for c in idx.mro(tcls)) or any(
+                    isinstance(n, ast.Attribute) and n.attr in
+                    (attr, "_" + attr) and isinstance(n.ctx, ast.Store)
+                    for c in idx.mro(tcls) for n in ast.walk(c.node))
+            if test.func.id == "isinstance":
+                types = test.args[1].elts if isinstance(
+                    test.args[1], ast.Tuple) else [test.args[1]]
+                names = [ast.unparse(t).split(".")[-1] for t in types]
+                return any(idx.is_subclass(tcls, n) for n in names)
+        return None
+
+    def enclosing(node, target, trail):
+        for child in ast.iter_child_nodes(node):
+            if child is target:
+                return trail
+            sub = trail
+            if isinstance(node, ast.If) and child in node.body:
+                sub = trail + [(node, True)]
+            elif isinstance(node, ast.If) and child in node.orelse:
+                sub = trail + [(node, False)]
+            res = enclosing(child, target, sub)
+            if res is not None:
+                return res
+        return None
+
+    adds = [c for c in ast.walk(kfunc) if isinstance(c, ast.Call) and
+            " ".join(ast.unparse(c).split()) ==
+            "symbols_to_bring_in.add(symbol.datatype.precision)"]
+    for add in adds:
+        for tname in ("ScalarType", "ArrayType"):
+            blocked = None
+            for ifnode, branch in enclosing(kfunc, add, []) or []:
+                if "symbol.datatype" not in ast.unparse(ifnode.test) or \
+                        "symbol.datatype.precision" in \
+                        ast.unparse(ifnode.test):
+                    continue
+                val = admits(ifnode.test, tname)
+                if val is not None and val != branch:
+                    blocked = ifnode
             run.check(
-                "C04.R4", ttxt in ("hasattr(symbol.datatype, 'precision')",)
-                or "ArrayType" in ttxt and "ScalarType" in ttxt,
-                f"KernelModuleInlineTrans.{kfunc.name}",
+                "C04.R4", blocked is None,
+                f"KernelModuleInlineTrans.{kfunc.name} [{tname}]",
                 "the kind parameter of every typed symbol is brought in",
-                f"the precision symbol is only brought into the container "
-                f"when '{ttxt}': an array declared real(kind=wp) is copied "
-                f"without wp, which is then undeclared in the new scope",
-                loc(kcls.module, st))
+                f"the precision symbol of a symbol whose type is a {tname} "
+                f"is not brought into the container (test '"
+                f"{ast.unparse(blocked.test) if blocked else ''}'): its "
+                f"declaration, e.g. real(kind=wp), then names a kind "
+                f"parameter that is undeclared in the new scope",
+                loc(kcls.module, blocked or add))
 
 
 def check(idx, run):
